@@ -16,6 +16,7 @@ package app_test
 
 import (
 	"errors"
+	"os"
 	"fmt"
 	"math/big"
 	"math/rand"
@@ -25,6 +26,7 @@ import (
 	"time"
 
 	coreheader "cosmossdk.io/core/header"
+	storetypes "cosmossdk.io/store/types"
 	abci "github.com/cometbft/cometbft/abci/types"
 	sdk "github.com/cosmos/cosmos-sdk/types"
 
@@ -708,6 +710,152 @@ func (e *twEngine) dump() {
 	e.o.Emit("twap dump", rs+"|"+strings.Join(ss, ";"), true)
 }
 
+// ---------------------------------------------------------------- genesis export / import (C19)
+
+func twLoss(o *Out, key, detail string) {
+	if os.Getenv("VERIF_EXPORT_IMPORT_LOSSES") != "count" {
+		o.Fail(key, detail)
+	} else {
+		o.Count("exportimport.LOSS." + key)
+	}
+}
+
+func twRaw(ctx sdk.Context, e *twEngine, prefixes ...[]byte) []string {
+	store := ctx.KVStore(e.h.App.GetKey(twaptypes.StoreKey))
+	var out []string
+	if len(prefixes) == 0 {
+		prefixes = [][]byte{nil}
+	}
+	for _, p := range prefixes {
+		var it storetypes.Iterator
+		if p == nil {
+			it = store.Iterator(nil, nil)
+		} else {
+			it = storetypes.KVStorePrefixIterator(store, p)
+		}
+		for ; it.Valid(); it.Next() {
+			out = append(out, fmt.Sprintf("%x=%x", it.Key(), it.Value()))
+		}
+		it.Close()
+	}
+	return out
+}
+
+func twWipe(ctx sdk.Context, e *twEngine, prefixes ...[]byte) {
+	store := ctx.KVStore(e.h.App.GetKey(twaptypes.StoreKey))
+	var keys [][]byte
+	for _, p := range prefixes {
+		var it storetypes.Iterator
+		if p == nil {
+			it = store.Iterator(nil, nil)
+		} else {
+			it = storetypes.KVStorePrefixIterator(store, p)
+		}
+		for ; it.Valid(); it.Next() {
+			keys = append(keys, append([]byte{}, it.Key()...))
+		}
+		it.Close()
+	}
+	for _, k := range keys {
+		store.Delete(k)
+	}
+}
+
+// exportImport, two runs of the REAL ExportGenesis / InitGenesis (through the JSON codec):
+//  (A) compared with the model (which follows ONE pair): the exported document restricted to the tracked pair, that
+//      pair's historical + most-recent keys deleted, InitGenesis of the restricted document; committed when it does not
+//      panic (the history continues on the imported records), dropped when it panics (Validate rejected a record).
+//  (B) the whole module on a DISCARDED branch: export, every key deleted, import; observed: panic (the chain cannot
+//      import its own export), raw store equality, pruning state.
+func (e *twEngine) exportImport() {
+	k := e.h.App.TwapKeeper
+	o := e.o
+	cdc := e.h.App.AppCodec()
+	if e.poolId == 0 {
+		return
+	}
+	pairPrefixes := [][]byte{twaptypes.FormatHistoricalPoolIndexTimePrefix(e.poolId, e.d0, e.d1)}
+	recentKey := twaptypes.FormatMostRecentTWAPKey(e.poolId, e.d0, e.d1)
+	// ---- (A)
+	{
+		cctx, write := e.h.Ctx.CacheContext()
+		pre := append(twRaw(cctx, e, pairPrefixes...), fmt.Sprintf("recent=%x", cctx.KVStore(e.h.App.GetKey(twaptypes.StoreKey)).Get(recentKey)))
+		var gs twaptypes.GenesisState
+		var msg string
+		ok := catchMsg(&msg, func() {
+			full := k.ExportGenesis(cctx)
+			sub := twaptypes.GenesisState{Params: full.Params}
+			for _, r := range full.Twaps {
+				if r.PoolId == e.poolId && r.Asset0Denom == e.d0 && r.Asset1Denom == e.d1 {
+					sub.Twaps = append(sub.Twaps, r)
+				}
+			}
+			cdc.MustUnmarshalJSON(cdc.MustMarshalJSON(&sub), &gs)
+		})
+		if !ok {
+			o.Emit("twap exportimport", "panic", true)
+			o.Fail("twap:export-import:export-panics", msg)
+			return
+		}
+		twWipe(cctx, e, pairPrefixes...)
+		cctx.KVStore(e.h.App.GetKey(twaptypes.StoreKey)).Delete(recentKey)
+		if !catchMsg(&msg, func() { k.InitGenesis(cctx, &gs) }) {
+			o.Emit("twap exportimport", "panic", true)
+			o.Count("exportimport.pair.panic")
+			twLoss(o, "twap:export-import:init-genesis-rejects-own-export", fmt.Sprintf("pool %d %s: %s", e.poolId, e.kind, msg))
+		} else {
+			post := append(twRaw(cctx, e, pairPrefixes...), fmt.Sprintf("recent=%x", cctx.KVStore(e.h.App.GetKey(twaptypes.StoreKey)).Get(recentKey)))
+			if strings.Join(pre, " ") != strings.Join(post, " ") {
+				o.Fail("twap:export-import:records-differ", fmt.Sprintf("pool %d before %d entries after %d", e.poolId, len(pre), len(post)))
+			}
+			write()
+			o.Emit("twap exportimport", "ok", true)
+			o.Count("exportimport.pair.ok")
+		}
+		e.dump()
+	}
+	// ---- (B)
+	{
+		cctx, _ := e.h.Ctx.CacheContext()
+		prePrune := k.GetPruningState(cctx)
+		pre := twRaw(cctx, e)
+		var gs twaptypes.GenesisState
+		var msg string
+		if !catchMsg(&msg, func() { cdc.MustUnmarshalJSON(cdc.MustMarshalJSON(k.ExportGenesis(cctx)), &gs) }) {
+			o.Fail("twap:export-import:export-panics", msg)
+			return
+		}
+		twWipe(cctx, e, nil)
+		if !catchMsg(&msg, func() { k.InitGenesis(cctx, &gs) }) {
+			o.Count("exportimport.module.panic")
+			twLoss(o, "twap:export-import:init-genesis-rejects-own-export", msg)
+			return
+		}
+		o.Count("exportimport.module.ok")
+		post := twRaw(cctx, e)
+		pruneKey := fmt.Sprintf("%x=", twaptypes.PruningStateKey)
+		filter := func(l []string) string {
+			var out []string
+			for _, x := range l {
+				if !strings.HasPrefix(x, pruneKey) {
+					out = append(out, x)
+				}
+			}
+			return strings.Join(out, " ")
+		}
+		if filter(pre) != filter(post) {
+			o.Fail("twap:export-import:store-differs", fmt.Sprintf("%d entries before, %d after", len(pre), len(post)))
+		}
+		if postPrune := k.GetPruningState(cctx); postPrune.IsPruning != prePrune.IsPruning || !postPrune.LastKeptTime.Equal(prePrune.LastKeptTime) || postPrune.LastSeenPoolId != prePrune.LastSeenPoolId {
+			if prePrune.IsPruning {
+				twLoss(o, "twap:export-import:pruning-pass-in-progress-forgotten", fmt.Sprintf("%v -> %v", prePrune, postPrune))
+			} else {
+				o.Count("exportimport.module.idle-pruning-state-not-exported")
+			}
+		}
+	}
+}
+
 // ---------------------------------------------------------------- queries + oracle
 
 func (e *twEngine) pickTime(now time.Time) time.Time {
@@ -1293,6 +1441,12 @@ func runTwap(t *testing.T, seed int64, n int, dir string) {
 			}
 			if r.Intn(10) == 0 {
 				e.dump()
+			}
+			if r.Intn(7) == 0 {
+				e.exportImport()
+				if r.Intn(2) == 0 {
+					e.queries(2)
+				}
 			}
 		}
 		e.queries(4)
